@@ -1,5 +1,7 @@
 """Per-property check definitions: which legs (workload + fault space), which probes, which oracle, how many
 units per tier.  Budgets are sized for ~60-100 s (quick) and ~10-15 min (thorough) on 16 cores."""
+import os
+
 from . import scenario as S
 
 P = S.profile
@@ -192,6 +194,8 @@ def _c09(tier):
             p_restarts=0.4, p_bounds=0.5, p_faults=1.0, allow_raise=False, **CONVEX))),
         dict(name='convex-cuts', leg='cuts', units=U(tier, 16, 80), opts=dict(oracles=['C09'], probes=('dyk',), ref_budget_cap=U(tier, 25, 40), profile=P(
             p_restarts=0.3, p_bounds=0.5, maxfun_choices=[15, 25, 40], **CONVEX))),
+        dict(name='convex-small-worlds', leg='swarm', units=U(tier, 200), opts=dict(per_unit=4, oracles=['C09'], probes=('dyk',), salt='small', profile=P(
+            p_restarts=0.5, p_bounds=0.5, p_faults=0.2, allow_raise=False, n_choices=[1, 2, 2], maxfun_choices=[8, 12, 15, 20], **CONVEX))),
     ]
 
 
@@ -203,6 +207,8 @@ def _c15(tier):
             p_restarts=0.4, p_bounds=0.5, p_faults=1.0, allow_raise=False, **CONVEX))),
         dict(name='convex-regularised', leg='swarm', units=U(tier, 60), opts=dict(per_unit=1, oracles=['insitu'], probes=('c15',), salt='reg', profile=P(
             p_reg=1.0, p_restarts=0.3, p_bounds=0.5, **CONVEX))),
+        dict(name='convex-small-worlds', leg='swarm', units=U(tier, 160), opts=dict(per_unit=4, oracles=['insitu'], probes=('c15',), salt='small', profile=P(
+            p_restarts=0.5, p_bounds=0.5, p_faults=0.2, allow_raise=False, n_choices=[1, 2, 2], maxfun_choices=[8, 12, 15, 20], **CONVEX))),
     ]
 
 
@@ -307,5 +313,9 @@ _cache = {}
 def legs_for(check_id, tier):
     key = (check_id, tier)
     if key not in _cache:
-        _cache[key] = CHECKS[check_id]['legs'](tier)
+        legs = CHECKS[check_id]['legs'](tier)
+        only = os.environ.get('DSIM_ONLY_LEG')      # development aid (never used by registered commands): legs whose name contains the text
+        if only:
+            legs = [l for l in legs if only in l['name']]
+        _cache[key] = legs
     return _cache[key]
